@@ -29,6 +29,7 @@
 #include "numeric.h"
 #include "matrix.h"
 #include "memwrapper.h"
+#include "verif_hooks.h"
 
 typedef struct{
   matrix *m;
@@ -185,6 +186,7 @@ void MDC(matrix* m,
       args[th].from = from;
       args[th].to = to;
       args[th].mdc = mdc;
+      VERIF_SLICE("MDC", th, args[th].from, args[th].to, m->row);
       pthread_create(&threads[th], NULL, MDCWorker, (void*) &args[th]);
 
       from = to;
@@ -799,6 +801,7 @@ void KMeansppCenters(matrix *m,
         from += nobj;
       }
       arg[i].to = from;
+      VERIF_SLICE("KMeansppCenters", i, arg[i].from, arg[i].to, m->row);
       pthread_create(&threads[i], NULL, kmppDistanceWorker, (void*) &arg[i]);
     }
 
@@ -1065,6 +1068,7 @@ void getLabels_(matrix *m, matrix *centroids, uivector *labels, int nthreads)
       from += nobj;
     }
     arg[i].to = from;
+    VERIF_SLICE("getLabels_", i, (size_t)arg[i].from, (size_t)arg[i].to, m->row);
     pthread_create(&threads[i], NULL, getLabelsWorker, (void*) &arg[i]);
   }
 
